@@ -363,6 +363,8 @@ PushGrace == 1000
 SubsNamed(name) == {si \in DOMAIN S : S[si].name = name}
 NewestNamed(name) == CHOOSE si \in SubsNamed(name) : \A x \in SubsNamed(name) : x <= si
 
+LastAnswer(si, m) == IF <<si, m>> \in DOMAIN httpLast THEN httpLast[<<si, m>>] ELSE None
+
 HttpGuards(e) ==
     IF SubsNamed(e.sub) = {} THEN { G("C14", FALSE) } ELSE
     LET si == NewestNamed(e.sub) IN
@@ -372,6 +374,7 @@ HttpGuards(e) ==
       G("C14", S[si].st = "live" \/ (si \in DOMAIN delT /\ e.t - delT[si] <= PushGrace)),
       \* a POST is a delivery that is outstanding right now: never again after it was accepted
       G("C14", S[si].st = "live" => e.m \in LeasedMsgs(S[si])),
+      G("C14", LastAnswer(si, e.m) \notin PushSuccess),
       \* JSON naming the subscription, base64 data, the message id (in both spellings)
       G("C14", e.method = "POST" /\ e.json /\ e.b64ok /\ e.same_id),
       G("C09", e.m \in DOMAIN pubs),
@@ -383,7 +386,6 @@ ClientAckPending(si, acks) ==
     \/ \E g \in gone : g.op = "Ack" /\ g.sub = S[si].name /\ g.acks = acks
     \/ \E c \in DOMAIN pend : pend[c].e.op = "StreamOpen" /\ pend[c].e.sub = S[si].name
                                  /\ \E j \in 1..Len(pend[c].ctrl) : pend[c].ctrl[j].acks = acks
-LastAnswer(si, m) == IF <<si, m>> \in DOMAIN httpLast THEN httpLast[<<si, m>>] ELSE None
 
 \* The push dispatcher acknowledges only what the endpoint accepted, and gives back (nacks)
 \* only what it did not accept.
